@@ -17,7 +17,8 @@ func init() {
 		decided: "the read accessor (GetMember and its helpers) has no effect on non-local memory, and the read arms of the expression evaluator store through an operand only to auto-vivify an unset variable; no function replaces the slice header of an existing array value (array identity — violated today at four sites: known finding); copyValue's kind table (scalars get a fresh payload, arrays / objects / unset share, functions are an error) and every insertion point (assignment, call arguments, array and object literal elements) goes through it; index resolution and the fill loop (shared with C15/R4); the ++/-- table; speculative creation makes an object for a string key and an array for a numeric key, parent first." +
 			" In GetMember's object arm the prototype is consulted only when the key is absent from the object; sort works on a clone with fresh cells." +
 			" The for-in loop variable receives a copy of the element." +
-			" The evaluated cell itself enters an argument / item list only when no copy was requested, whatever kind of expression produced it; scalar payloads are written once, at allocation.",
+			" The evaluated cell itself enters an argument / item list only when no copy was requested, whatever kind of expression produced it; scalar payloads are written once, at allocation." +
+			" Every successful assignment copies its right-hand value into the target (no value or target kind is skipped); every declared parameter gets a cell of its own.",
 		notDecided: "whole-document equality before / after a write.",
 	})
 }
